@@ -110,10 +110,18 @@ func wrapInt(t types.Type, e string) string {
 	m := modulus(b)
 	// The in-range case is split off: linear arithmetic with mod by 2^64 is slow in the solvers, and almost every
 	// value the code computes is in range.
+	lo, hi, _ := intRange(b)
+	if bitsOf(b) <= 32 {
+		// small moduli are cheap for the solvers, and a chain of 16-bit offset computations written with ite
+		// case splits makes model search exponential (RadioTap: 25 conditional "offset +=" in a row)
+		if isUnsigned(b) {
+			return "(mod " + e + " " + m + ")"
+		}
+		return fmt.Sprintf("(- (mod (+ %s %s 1) %s) %s 1)", e, hi, m, hi)
+	}
 	if isUnsigned(b) {
 		return fmt.Sprintf("(ite (and (<= 0 %s) (< %s %s)) %s (mod %s %s))", e, e, m, e, e, m)
 	}
-	lo, hi, _ := intRange(b)
 	return fmt.Sprintf("(ite (and (<= %s %s) (<= %s %s)) %s (- (mod (+ %s %s 1) %s) %s 1))", neg(lo), e, e, hi, e, e, hi, m, hi)
 }
 
